@@ -155,19 +155,20 @@ def _on_alarm(signum, frame):
 
 
 class watchdog:
-    """with watchdog(seconds): ...   raises Hang inside the block after `seconds` of wall time.
+    """with watchdog(seconds): ...   raises Hang inside the block after `seconds` of CPU time of this
+    process (ITIMER_PROF: a loaded machine must not turn a slow run into a "hang").
     Only for hangs: the limits used are >= 50x the normal running time."""
 
     def __init__(self, seconds):
         self.seconds = seconds
 
     def __enter__(self):
-        self.old = signal.signal(signal.SIGALRM, _on_alarm)
-        signal.setitimer(signal.ITIMER_REAL, self.seconds)
+        self.old = signal.signal(signal.SIGPROF, _on_alarm)
+        signal.setitimer(signal.ITIMER_PROF, self.seconds)
 
     def __exit__(self, *exc):
-        signal.setitimer(signal.ITIMER_REAL, 0)
-        signal.signal(signal.SIGALRM, self.old)
+        signal.setitimer(signal.ITIMER_PROF, 0)
+        signal.signal(signal.SIGPROF, self.old)
         return False
 
 
